@@ -17,10 +17,14 @@ import (
 )
 
 func init() {
-	register(&Prop{ID: "C07", Module: "V.C07.Check", Gen: c07Gen, Quick: 700, Thorough: 6000, Shard: 150})
+	register(&Prop{ID: "C07", Module: "V.C07.Check", Gen: c07Gen, Quick: 300, Thorough: 20000, Shard: 200})
 }
 
-// ---------------------------------------------------------------- known findings (narrow input signatures)
+// ---------------------------------------------------------------- input signatures of REPAIRED findings
+//
+// The defects below were repaired in /repo (coq/C07/fixed.json, coq/C14/fixed.json).  Their input
+// signatures are no longer attached to cases as known findings (nothing is suppressed); they only label
+// the generator class (`…+sig`), so that the evidence shows how many inputs of that kind were run.
 
 const c07KFThemeOverrides = "C07-theme-overrides-nil-deref"
 const c07KFVarsSpelling = "C07-config-vars-spelling-unvalidated"
@@ -53,12 +57,7 @@ func c07SearchCoq(resp c07Resp, over bool) string {
 }
 
 func c07SearchCase(p *c07Prog, class string, kfs func(*c07Prog) []string) Case {
-	before := c07NoAnswer
-	c := c07SearchCaseInner(p, class, kfs)
-	if len(c.KF) > 0 {
-		c07NoAnswer = before // a known hang does not count towards giving up
-	}
-	return c
+	return c07SearchCaseInner(p, class, kfs)
 }
 
 func c07SearchCaseInner(p *c07Prog, class string, kfs func(*c07Prog) []string) Case {
@@ -86,8 +85,8 @@ func c07SearchCaseInner(p *c07Prog, class string, kfs func(*c07Prog) []string) C
 	c.Impl = impl
 	c.Nontrivial = len(p.Feats) >= 3
 	c.Key = fmt.Sprint(p.Files)
-	if kfs != nil {
-		c.KF = kfs(p)
+	if kfs != nil && len(kfs(p)) > 0 {
+		c.Class += "+sig"
 	}
 	switch resp.Class {
 	case "panic":
@@ -309,7 +308,7 @@ func c07Gen(r *Rng, tier string, n int) []Case {
 		out = append(out, c07SearchCase(p, "corpus", c07SearchKF))
 	}
 	// 2. config cases (model vs implementation)
-	out = append(out, c07ConfigCases(r, tier, n/4)...)
+	out = append(out, c07ConfigCases(r, tier, n/3)...)
 	// 3. exhaustive keyword x shape x context table
 	for _, kw := range c07TableKeywords() {
 		if c07GiveUp() {
